@@ -32,6 +32,11 @@ class _Sub:
         d = bytes(value.data or b'') if value is not None else b''
         m = bytes(value.metadata or b'') if value is not None else b''
         self.real.sig.append(('next', d, m, bool(is_complete)))
+        if self.real.REPLENISH and not is_complete and (d or m) and self.real.cancel_at is None:
+            # the usual Reactive Streams idiom: ask for one more from inside on_next
+            self.real.granted.append(1)
+            self.real.inner_requests += 1
+            self.real.subscription.request(1)
 
     def on_complete(self):
         self.real.sig.append(('complete',))
@@ -46,6 +51,7 @@ class RealSource:
     CWL = False
     FAIL = 0
     P = 'C06'
+    REPLENISH = False
 
     def __init__(self):
         import logging
@@ -59,6 +65,7 @@ class RealSource:
         self.asked = []          # what a back-pressure factory was told
         self.granted = []        # what the application passed to request()
         self.cancel_at = None    # len(sig) / pulls when cancel() returned
+        self.inner_requests = 0  # request(1) calls made from inside on_next
         self.subscription = None
         self.pub = self._make()
 
@@ -223,8 +230,8 @@ class RealSource:
             pass
 
 
-def _mk(kind, n, cwl, fail, prop):
-    return type('RealSource_%s' % kind, (RealSource,), {'KIND': kind, 'N': n, 'CWL': cwl, 'FAIL': fail, 'P': prop})
+def _mk(kind, n, cwl, fail, prop, replenish=False):
+    return type('RealSource_%s' % kind, (RealSource,), {'KIND': kind, 'N': n, 'CWL': cwl, 'FAIL': fail, 'P': prop, 'REPLENISH': replenish})
 
 
 def _state(vs):
@@ -275,10 +282,15 @@ SHAPES = {
     'Source_obsfail.cfg': ((3, False, 2), ['obs_x', 'obs_rx']),
     'Source_factory.cfg': ((2, False, 0), ['factory_x', 'factory_rx']),
     'Source_factoryfail.cfg': ((3, False, 3), ['factory_x', 'factory_rx']),
+    # the subscriber asks for one more from inside every on_next
+    'Source_replenish.cfg': ((3, False, 0), ['gen', 'agen', 'gen_delay']),
+    'Source_replenishfactory.cfg': ((3, False, 0), ['factory_x', 'factory_rx']),
+    'Source_replenishobs.cfg': ((3, False, 0), ['obs_x', 'obs_rx']),
 }
-QUICK = {'C06': ['Source_gen.cfg', 'Source_genflag.cfg', 'Source_empty.cfg', 'Source_genfail.cfg', 'Source_obs.cfg', 'Source_factory.cfg'],
+QUICK = {'C06': ['Source_gen.cfg', 'Source_genflag.cfg', 'Source_empty.cfg', 'Source_genfail.cfg', 'Source_obs.cfg', 'Source_factory.cfg',
+                 'Source_replenish.cfg', 'Source_replenishfactory.cfg'],
          'C09': ['Source_gen.cfg', 'Source_factory.cfg'],
-         'C20': ['Source_obs.cfg', 'Source_obsfail.cfg', 'Source_factory.cfg', 'Source_factoryfail.cfg']}
+         'C20': ['Source_obs.cfg', 'Source_obsfail.cfg', 'Source_factory.cfg', 'Source_factoryfail.cfg', 'Source_replenishobs.cfg']}
 
 
 def check(v, prop):
@@ -305,5 +317,5 @@ def check(v, prop):
         if not thorough:
             kinds = kinds[:2]
         for kind in kinds:
-            graphreplay.replay(v, 'Source', cfg, _mk(kind, n, cwl, fail, prop), _apply, _compare, _state, prop=prop,
+            graphreplay.replay(v, 'Source', cfg, _mk(kind, n, cwl, fail, prop, 'replenish' in cfg), _apply, _compare, _state, prop=prop,
                                label='source_%s_%s' % (cfg.replace('Source_', '').replace('.cfg', ''), kind), describe=desc, nondet=True)
